@@ -26,6 +26,7 @@ type World struct {
 	ginit   map[*ssa.Global]ssa.Value
 	gdone   map[*ssa.Global]bool
 	loadSec float64
+	tinfo   map[string]*types.Info // by package path
 }
 
 func findContractFiles(repo string) ([]string, error) {
@@ -93,7 +94,12 @@ func loadWorld(repo string, ss *SpecSet, pkgDirs []string) (*World, error) {
 	}
 	prog, _ := ssautil.AllPackages(pkgs, ssa.GlobalDebug|ssa.BareInits)
 	prog.Build()
-	w := &World{repo: repo, prog: prog, pkgs: map[string]*ssa.Package{}, ss: ss, ginit: map[*ssa.Global]ssa.Value{}, gdone: map[*ssa.Global]bool{}}
+	w := &World{repo: repo, prog: prog, pkgs: map[string]*ssa.Package{}, ss: ss, ginit: map[*ssa.Global]ssa.Value{}, gdone: map[*ssa.Global]bool{}, tinfo: map[string]*types.Info{}}
+	packages.Visit(pkgs, nil, func(p *packages.Package) {
+		if p.TypesInfo != nil && strings.HasPrefix(p.PkgPath, modulePath) {
+			w.tinfo[p.PkgPath] = p.TypesInfo
+		}
+	})
 	for _, p := range prog.AllPackages() {
 		w.pkgs[p.Pkg.Path()] = p
 	}
